@@ -145,7 +145,7 @@ theorem fanOut_ghost (env : Env) (m : Msg) (ds : List Nat) (w : World) :
     exact ⟨h1.trans c1, h2.trans c2⟩
 
 /-- everything `deliver` does to the fields the registration facts speak about -/
-theorem deliver_eff (env : Env) (w : World) (m : Msg) :
+theorem deliver_reg_eff (env : Env) (w : World) (m : Msg) :
     (w.deliver env m).1.stage = w.stage ++ [Fields.update m w.globals] ∧
     (w.deliver env m).1.stageAt = w.stageAt ++ [w.dests] ∧
     (w.deliver env m).1.dests = w.dests ∧ (w.deliver env m).1.anyAdded = w.anyAdded ∧
@@ -177,7 +177,7 @@ theorem deliver_eff (env : Env) (w : World) (m : Msg) :
     exact ⟨rfl, rfl, rfl, rfl, rfl, [], [], by rw [if_neg ha], by simp, by simp, by simp, by simp⟩
 
 theorem reg_deliver (env : Env) (w : World) (m : Msg) : RegStep env w (w.deliver env m).1 := by
-  obtain ⟨h1, h2, h3, h4, h5, calls, acc, hc, h6, h7, _, h9⟩ := deliver_eff env w m
+  obtain ⟨h1, h2, h3, h4, h5, calls, acc, hc, h6, h7, _, h9⟩ := deliver_reg_eff env w m
   refine ⟨⟨by rw [h1]; exact List.prefix_append _ _, by rw [h2]; exact List.prefix_append _ _, fun h => by rw [h5]; exact h⟩,
     fun r => ⟨by rw [h1, h2]; simp [r.len], ?_, fun d hd => ?_, by rw [h3, h4]; exact r.idle, ?_, ?_⟩⟩
   · rw [h6, World.staged, h1, h2, List.zip_append r.len.symm, fanCalls_append, ← World.staged, ← r.off, hc]
@@ -304,7 +304,7 @@ theorem constBasicD (env : Env) : BasicD env Const where
     · exact ax l h
     · rw [ay l h, d1]
   deliver := fun w m => by
-    obtain ⟨_, h2, h3, _⟩ := deliver_eff env w m
+    obtain ⟨_, h2, h3, _⟩ := deliver_reg_eff env w m
     exact ⟨h3, [w.dests], h2, by simp⟩
   clock := fun _ => Const.ofSame rfl rfl
   nextLevel := fun w h => by
@@ -367,7 +367,7 @@ theorem Unreg.ofSame {d : Nat} {w w' : World} (h1 : w'.offered = w.offered) (h2 
   fun h => ⟨by rw [h3]; exact h, by simp [offeredTo, h1], by simp [acceptedBy, h2]⟩
 
 theorem unreg_deliver (env : Env) (d : Nat) (w : World) (m : Msg) : Unreg d w (w.deliver env m).1 := by
-  obtain ⟨_, _, h3, _, _, calls, acc, hc, h6, h7, h8, _⟩ := deliver_eff env w m
+  obtain ⟨_, _, h3, _, _, calls, acc, hc, h6, h7, h8, _⟩ := deliver_reg_eff env w m
   intro hd
   refine ⟨by rw [h3]; exact hd, ?_, ?_⟩
   · simp only [offeredTo, h6, List.filter_append, List.map_append]
